@@ -48,7 +48,7 @@ def run(rep, tier, seed):
                 else:
                     rep.add_structural(r['name'], 'undecided', r['detail'] + ' ; candidate not reproducible natively (recording site unreachable with Taylor-polynomial values)')
                     rep.undecide(r['name'], 'signature candidate for %s could not be exercised natively: %s' % (f, r['detail']))
-        else: rep.add_structural(r['name'], 'holds', r['verdict'] + ': ' + r['detail'])
+        else: rep.add_structural(r['name'], r['verdict'] if r['verdict'] in ('skipped', 'no-pullback') else 'holds', r['verdict'] + ': ' + r['detail'])
     # random compositions over the ops that are individually fine
     n = 40 if tier == 'quick' else 400
     good = [k for k in progs.OPS]
